@@ -189,3 +189,43 @@ func outputCellJobs() []*job {
 }
 
 func pick3(i int, a, b, c string) string { return []string{a, b, c}[i%3] }
+
+// modeAndLikeJobs: (1) string functions with an optional unit / encoding argument over DATA whose characters differ in
+// length, byte count and display width (the in-process mode grid covers the literals); (2) LIKE patterns with multi-byte
+// literal parts before / between / after wildcards on short multi-byte values.  Small, run in every round.
+func modeAndLikeJobs() []*job {
+	var jobs []*job
+	sp := []string{"", "́", "​", "́​", "á", "日本", "\U0001F600", "ｱ", "\x01\x1b", "abc"}
+	var rows []string
+	for i, s := range sp {
+		rows = append(rows, fmt.Sprintf("%d,%s", i, "\""+s+"\""))
+	}
+	files := []fileSpec{{Name: "sp.csv", Data: []byte("i,s\n" + strings.Join(rows, "\n") + "\n")}}
+	for _, m := range []string{"'LEN'", "'BYTE'", "'WIDTH'", "'len'", "'XXX'", "NULL", "''"} {
+		for _, e := range []string{"", ", 'UTF8'", ", 'SJIS'", ", 'UTF16'", ", 'XXX'"} {
+			if e != "" && m != "'BYTE'" && m != "'WIDTH'" {
+				continue
+			}
+			for _, n := range []string{"0", "3", "10"} {
+				jobs = append(jobs, &job{Group: "modes", Tags: []string{"modes:LPAD/RPAD " + m + e, "cpu:4"}, Files: files, Opts: cpu4, Stmts: []string{
+					"SELECT LPAD('ab', " + n + ", s, " + m + e + "), RPAD(s, " + n + ", 'x', " + m + e + "), LPAD(s, " + n + ", s, " + m + e + ") FROM sp"}})
+			}
+		}
+	}
+	for _, e := range []string{"'UTF8'", "'SJIS'", "'UTF16'", "'AUTO'", "'XXX'", "NULL"} {
+		jobs = append(jobs, &job{Group: "modes", Tags: []string{"modes:encoding argument " + e}, Files: files, Stmts: []string{
+			"SELECT LEN(s), BYTE_LEN(s, " + e + "), WIDTH(s), HEX_ENCODE(s, " + e + "), BASE64_ENCODE(s, " + e + "), HEX_DECODE(HEX_ENCODE(s), " + e + ") FROM sp",
+			"SELECT SUBSTR(s, 1, 1), SUBSTRING(s, -1), INSTR(s, s), TRIM(s, s), LTRIM('a' || s, s), UPPER(s), TITLE_CASE(s), REPLACE(s, s, s), LIST_ELEM(s, s, 0) FROM sp"}})
+	}
+	vals := []string{"東京都港区", "東京都", "é", "éa", "aé", "日", "日本", "ｱｲ", "😀", "a😀b", "é́"}
+	pats := []string{"%東京都%区", "東京都%区", "%都%", "東_都%", "é_", "_é", "é%", "%é", "%é%a", "日_", "_日_", "%日%本%", "%😀", "😀_", "_😀_", "%ｱ%ｲ", "ｱ_", "%é́", "é_%_", "%区%都", "\\%é", "é\\_", "東京都港区_", "%東京都港区%"}
+	for _, p := range pats {
+		var items []string
+		for _, v := range vals {
+			items = append(items, sqlString(v)+" LIKE "+sqlString(p), sqlString(v)+" NOT LIKE "+sqlString(p))
+		}
+		jobs = append(jobs, progJob("modes", []string{"like-multibyte:" + p}, nil, "SELECT "+strings.Join(items, ", ")))
+		jobs = append(jobs, &job{Group: "modes", Tags: []string{"like-multibyte over data:" + p}, Files: files, Opts: cpu4, Stmts: []string{"SELECT i FROM sp WHERE s LIKE " + sqlString(p) + " OR s || '区' LIKE " + sqlString(p)}})
+	}
+	return jobs
+}
